@@ -7,9 +7,10 @@ import TempestVerif.Model.HGMM
 
   mstep.F / mstep.Q   d=<nat> k=<nat> x=<n×d> r=<n×K> s=<n> tiny=<scalar> eps=<scalar>
         →  <weights> <means K×d> <covFull K×(d×d)> <covDiag K×d>
+  init.F              d= k= x= u=<n×K log soft assignment -0.5·dist²> s= tiny= eps=   →  as mstep
   estep.F / estep.Q   p=<n×K> eps=<scalar>          →  <normalised n×K>
-  hgmm.F / hgmm.Q     n=<nat> minpts=<nat> maxit=<nat> script=<it>:<idx>:<improvement>:<threshold>:<labels>;…
-        (labels: a string of digits, `-` when `predict` was not called)
+  hgmm.F / hgmm.Q     n=<nat> minpts=<nat> maxit=<nat> script=<m.m.m>:<improvement>:<threshold>:<labels>;…
+        (one entry per distinct examined member list; labels: a string of digits, one per member)
         →  <K> <clusters> <labels> <trace it:idx:m.m.m;…>     or  bad-script…
   argmax.F / argmin.F  p=<rows>                      →  <index per row, -1 for an empty row>
 -/
@@ -35,25 +36,37 @@ def mstepH (α : Type) [Sc α] [Codec α] (args : List (String × String)) : Str
     s!"{showList Codec.shw m.weights} {showMat Codec.shw m.means} {showStack Codec.shw m.covFull} {showMat Codec.shw m.covDiag}"
   | _, _, _, _, _, _, _ => "bad-op"
 
+/-- `init.F d= k= x= u=<n×K matrix of -0.5·dist²> s= tiny= eps=`  →  as `mstep` (needs `exp`: Float only) -/
+def initH (α : Type) [ScT α] [Codec α] (args : List (String × String)) : String :=
+  let sc := Codec.parse (α := α)
+  match (getArg args "d").bind String.toNat?, (getArg args "k").bind String.toNat?,
+        (getArg args "x").bind (parseMat? sc), (getArg args "u").bind (parseMat? sc),
+        (getArg args "s").bind (parseList? sc), (getArg args "tiny").bind sc, (getArg args "eps").bind sc with
+  | some d, some k, some x, some u, some s, some tiny, some eps =>
+    let m := initParams tiny eps d k x u s
+    s!"{showList Codec.shw m.weights} {showMat Codec.shw m.means} {showStack Codec.shw m.covFull} {showMat Codec.shw m.covDiag}"
+  | _, _, _, _, _, _, _ => "bad-op"
+
 def estepH (α : Type) [Sc α] [Codec α] (args : List (String × String)) : String :=
   let sc := Codec.parse (α := α)
   match (getArg args "p").bind (parseMat? sc), (getArg args "eps").bind sc with
   | some p, some eps => showMat Codec.shw (estepNormalise eps p)
   | _, _ => "bad-op"
 
-/-- one script line `it:idx:improvement:threshold:labels` -/
-def parseEntry? (α : Type) [Codec α] (s : String) : Option ((Nat × Nat) × Entry α) :=
+/-- one script line `members:improvement:threshold:labels` (members separated by `.`).  The numerics of the
+    real code are a deterministic function of the member list, so the script is keyed by it. -/
+def parseEntry? (α : Type) [Codec α] (s : String) : Option (List Nat × Entry α) :=
   match s.splitOn ":" with
-  | [it, idx, imp, thr, lab] =>
-    match it.toNat?, idx.toNat?, Codec.parse (α := α) imp, Codec.parse (α := α) thr with
-    | some it, some idx, some imp, some thr =>
+  | [mem, imp, thr, lab] =>
+    match (mem.splitOn ".").mapM String.toNat?, Codec.parse (α := α) imp, Codec.parse (α := α) thr with
+    | some mem, some imp, some thr =>
       let labs : Option (List Nat) :=
         if lab == "-" then some [] else lab.toList.mapM fun c => (hexDigit? c)
-      labs.map fun l => ((it, idx), ⟨imp, thr, l⟩)
-    | _, _, _, _ => none
+      labs.map fun l => (mem, ⟨imp, thr, l⟩)
+    | _, _, _ => none
   | _ => none
 
-def parseScript? (α : Type) [Codec α] (s : String) : Option (List ((Nat × Nat) × Entry α)) :=
+def parseScript? (α : Type) [Codec α] (s : String) : Option (List (List Nat × Entry α)) :=
   if s.isEmpty || s == "-" then some [] else (s.splitOn ";").mapM (parseEntry? α)
 
 /-- which `(idx, members)` one pass examines (the clusters that are not skipped) -/
@@ -76,14 +89,14 @@ def hgmmH (α : Type) [Sc α] [Codec α] (zero : α) (args : List (String × Str
   match (getArg args "n").bind String.toNat?, (getArg args "minpts").bind String.toNat?,
         (getArg args "maxit").bind String.toNat?, (getArg args "script").bind (parseScript? α) with
   | some n, some minPts, some maxIt, some script =>
-    let find (it idx : Nat) : Option (Entry α) := (script.find? fun p => p.1 == (it, idx)).map (·.2)
+    let find (mem : List Nat) : Option (Entry α) := (script.find? fun p => p.1 == mem).map (·.2)
     -- a key the script lacks is reported below (never silently defaulted)
-    let oracle : Nat → Nat → List Nat → Entry α := fun it idx _ => (find it idx).getD ⟨zero, zero, []⟩
+    let oracle : Nat → Nat → List Nat → Entry α := fun _ _ mem => (find mem).getD ⟨zero, zero, []⟩
     let clusters := fitClusters oracle n minPts maxIt
     let (cl2, tr) := traceLoop oracle minPts maxIt 0 [List.range n] []
-    let missing := tr.filter fun t => (find t.1 t.2.1).isNone
-    let badLen := tr.filter fun t => match find t.1 t.2.1 with
-      | some e => !(e.childLabels.isEmpty) && e.childLabels.length != t.2.2.length
+    let missing := tr.filter fun t => (find t.2.2).isNone
+    let badLen := tr.filter fun t => match find t.2.2 with
+      | some e => e.childLabels.length != t.2.2.length
       | none => false
     if cl2 != clusters then "bad-op"
     else if !missing.isEmpty then
@@ -106,6 +119,7 @@ def handle (cmd : String) (args : List (String × String)) : Option String :=
   match cmd with
   | "mstep.F" => some (mstepH Float args)
   | "mstep.Q" => some (mstepH Rat args)
+  | "init.F" => some (initH Float args)
   | "estep.F" => some (estepH Float args)
   | "estep.Q" => some (estepH Rat args)
   | "hgmm.F" => some (hgmmH Float 0.0 args)
